@@ -1116,7 +1116,24 @@ _VARIANTS = [
 ]
 
 
-def run_impl(op, opts, e, c, variant=None, via=None):
+def build_shared(te, tc):
+    """(E, C) with every sub-tree of C whose spec equals the sub-tree of E at the same position being the SAME object as in E
+    (an application that derives `computed` from `expected`, or compares an object with itself): the verdict is about values."""
+    def walk(a, b, A):
+        if a == b:
+            return A
+        if a[0] == "L" and b[0] == "L":
+            return [walk(x, y, X) if i < len(a[1]) else build(y) for i, (x, y, X) in enumerate(zip(list(a[1]) + [None] * len(b[1]), b[1], list(A) + [None] * len(b[1])))] \
+                if len(a[1]) >= len(b[1]) else [walk(a[1][i], y, A[i]) if i < len(a[1]) else build(y) for i, y in enumerate(b[1])]
+        if a[0] == "D" and b[0] == "D":
+            da = dict(a[1])
+            return {k: (walk(da[k], v, A[k]) if k in da else build(v)) for k, v in b[1]}
+        return build(b)
+    E = build(te)
+    return E, walk(te, tc, E)
+
+
+def run_impl(op, opts, e, c, variant=None, via=None, share=False):
     """returns canonical answer and exception text.
     `via`: None | ('model', E, C) | ('molrecs', E, C) | ('proto', E, C) | ('molrecs_raw', E, C)"""
     from qcelemental import testing as T
@@ -1163,6 +1180,8 @@ def run_impl(op, opts, e, c, variant=None, via=None):
         r, msg = impl_call(T.compare_molrecs, via[1], via[2], **kw)
     elif via is not None and via[0] == "molrecs_raw":
         r, msg = impl_call(T.compare_molrecs, copy.deepcopy(via[1]), copy.deepcopy(via[2]), **kw)
+    elif share:
+        r, msg = impl_call(fn, *build_shared(e, c), **kw)
     else:
         r, msg = impl_call(fn, build(e), build(c), **kw)
     if isinstance(r, tuple) and len(r) == 2 and r[0] == "H":
@@ -1245,6 +1264,13 @@ def check_line(ctx, out: Outcome, block, line, model_line, via=None, variant_rng
         out.count("reporting_variant")
         if impl2 != impl:
             out.violations.append(Finding("oracle:reporting_changes_verdict", dict(case, variant=str(v)), observed=impl2, expected=impl, detail="verdict depends on quiet/return_message/return_handler"))
+    # the verdict is about VALUES: equal sub-trees being the very same Python objects on both sides changes nothing
+    if variant_rng is not None and via is None and op in ("V", "E", "R", "W") and variant_rng.random() < 0.3:
+        impl3, _ = run_impl(op, opts, e, c, via=None, share=True)
+        out.count("shared_objects_variant")
+        if impl3 != impl:
+            out.violations.append(Finding("oracle:identity_changes_verdict", dict(case, shared_objects=True), observed=impl3, expected=impl,
+                                          detail="the verdict differs when equal sub-structures of expected and computed are the same Python objects"))
     # correspondence
     if model_line is not None and model_line != impl:
         out.mismatches.append(Finding("mismatch", case, observed=impl, expected=model_line, detail="implementation vs Lean model"))
